@@ -198,12 +198,42 @@ impl Scenario for C13 {
                 "add_d" => {
                     let (sv, ticks) = (op.arg(1), op.arg(2) != 0.0);
                     cp.add(DifficultyPoint { time: t, slider_velocity: sv, generate_ticks: ticks });
-                    m.add_d(MD { time: t, sv, ticks });
+                    // a NaN (or same-signed infinite) value repeating a NaN (infinite) active value: whether that "merely
+                    // repeats" is not fixed by the statement — accept either outcome and follow the real collection
+                    let act = crate::models::timing::active(&m.d, t, |q| q.time).map(|i| (m.d[i].sv, m.d[i].ticks));
+                    let ambiguous = matches!(act, Some((a, tk)) if tk == ticks && ((a.is_nan() && sv.is_nan()) || (a.is_infinite() && a == sv)));
+                    if ambiguous {
+                        st.inc("probe.ambiguous-repeat-of-non-finite-value");
+                        let stored = cp.difficulty_points.iter().any(|p| p.time.to_bits() == t.to_bits() && p.slider_velocity.to_bits() == sv.to_bits());
+                        if stored {
+                            let mut mm = std::mem::take(&mut m.d);
+                            mm.retain(|q| q.time.to_bits() != t.to_bits());
+                            let at = mm.iter().position(|q| q.time.total_cmp(&t).is_gt()).unwrap_or(mm.len());
+                            mm.insert(at, MD { time: t, sv, ticks });
+                            m.d = mm;
+                        }
+                    } else {
+                        m.add_d(MD { time: t, sv, ticks });
+                    }
                 }
                 "add_e" => {
                     let (kiai, scroll) = (op.arg(1) != 0.0, op.arg(2));
                     cp.add(EffectPoint { time: t, kiai, scroll_speed: scroll });
-                    m.add_e(ME { time: t, kiai, scroll });
+                    let act = crate::models::timing::active(&m.e, t, |q| q.time).map(|i| (m.e[i].scroll, m.e[i].kiai));
+                    let ambiguous = matches!(act, Some((a, k)) if k == kiai && ((a.is_nan() && scroll.is_nan()) || (a.is_infinite() && a == scroll)));
+                    if ambiguous {
+                        st.inc("probe.ambiguous-repeat-of-non-finite-value");
+                        let stored = cp.effect_points.iter().any(|p| p.time.to_bits() == t.to_bits() && p.scroll_speed.to_bits() == scroll.to_bits());
+                        if stored {
+                            let mut mm = std::mem::take(&mut m.e);
+                            mm.retain(|q| q.time.to_bits() != t.to_bits());
+                            let at = mm.iter().position(|q| q.time.total_cmp(&t).is_gt()).unwrap_or(mm.len());
+                            mm.insert(at, ME { time: t, kiai, scroll });
+                            m.e = mm;
+                        }
+                    } else {
+                        m.add_e(ME { time: t, kiai, scroll });
+                    }
                 }
                 "add_s" => {
                     let (b, vol, custom) = (op.iarg(1), op.iarg(2) as i32, op.iarg(3) as i32);
